@@ -57,8 +57,35 @@ def refStep (r : IRef) (t0 : List String) (obs : String) : IRef × String :=
       let trusted0 := if tr = "-" then [] else (tr.splitOn ",").filterMap (fun (x : String) => x.toNat?.bind (fun i => keys[i]?))
       let key := keys.getD ki []
       let trusted := if trusted0.isEmpty then [key] else trusted0
-      let p : IParty := { key, trusted, algos := { speeds := [], allowUnencrypted := true }, nodeId }
-      ({ r with parties := setS r.parties name p }, "-")
+      match kvField fs "algos" with
+      | none =>
+        let p : IParty := { key, trusted, algos := { speeds := [], allowUnencrypted := true }, nodeId }
+        ({ r with parties := setS r.parties name p }, "-")
+      | some names =>
+        -- C06 "the outcome depends only on the two advertised sets": what a node advertises is exactly what its user configured —
+        -- plain iff a plain alias is listed, the set of ciphers = the set of configured cipher names (all three when nothing is configured),
+        -- whatever the order of the list
+        let listed := if names = "default" then ["aes128", "aes256", "chacha20"] else names.splitOn ","
+        let isPlain (n : String) := ["PLAIN", "NONE", "UNENCRYPTED"].contains n.toUpper
+        let cipherOf (n : String) : Option Cipher :=
+          let u := n.toUpper
+          if u.startsWith "AES128" || u.startsWith "AES_128" then some .aes128
+          else if u.startsWith "AES256" || u.startsWith "AES_256" then some .aes256
+          else if u.startsWith "CHACHA" then some .chacha else none
+        let bad := listed.any (fun n => !isPlain n && (cipherOf n).isNone)
+        if obs = "err" then (r, if bad then "ok" else "FAIL C06 a valid cipher list was refused") else
+        match (field obs "algos").bind parseAlgos with
+        | none => (r, "-")
+        | some adv =>
+          let wantC := (listed.filterMap cipherOf).eraseDups
+          let gotC := (adv.speeds.map (·.1)).eraseDups
+          let p : IParty := { key, trusted, algos := adv, nodeId }
+          let r1 := { r with parties := setS r.parties name p }
+          if bad then (r1, "FAIL C06 an unknown cipher name was accepted")
+          else if adv.allowUnencrypted ≠ listed.any isPlain then (r1, s!"FAIL C06 plain is advertised = {adv.allowUnencrypted} but configured = {listed.any isPlain}")
+          else if !(wantC.all (fun c => gotC.contains c) && gotC.all (fun c => wantC.contains c)) then
+            (r1, s!"FAIL C06 advertised ciphers {gotC.map (fun c => cipherName (some c))} differ from the configured ones {wantC.map (fun c => cipherName (some c))}")
+          else (r1, "ok")
     | _, _, _ => (r, "-")
   | "iparty" :: name :: fs =>
     match (kvField fs "key").bind String.toNat?, kvField fs "trust", (kvField fs "algos").bind parseAlgos, (kvField fs "id").bind Bytes.ofHex with
